@@ -65,13 +65,20 @@ def wit(run):
 
 
 # ----------------------------------------------------------------------------------------- TABLETS
-def _all_paths_pass(fn, start_block, pass_blocks, bypass_edges=(), exempt_blocks=()):
+def _all_paths_pass(fn, start_block, pass_blocks, bypass_edges=(), exempt_blocks=(), void_edges=(), first=None):
     """True when every path from start_block to the function exit goes through one of pass_blocks,
-    except paths that take a bypass edge or enter an exempt block."""
+    except paths that take a bypass edge or enter an exempt block.  Leaving a pass block by a void edge undoes the pass
+    (the hand-over in that block did not take place on that edge)."""
     seen, st = set(), [start_block]
     while st:
         b = st.pop()
-        if b in seen or b in pass_blocks or b in exempt_blocks:
+        if b in seen or b in exempt_blocks:
+            continue
+        if b in pass_blocks and b != first:
+            seen.add(b)
+            for idx, s in enumerate(fn.blocks[b]['succ']):
+                if s is not None and (b, idx) in void_edges:
+                    st.append(s)
             continue
         seen.add(b)
         if b == fn.exit:
@@ -895,6 +902,7 @@ def ownlocal(run, fx, reach_q):
             vid = dd['vid']
             sinks = set()
             sink_elems = set()
+            void_edges = set()
             vids = {vid}
             # plain local / parameter copies of the pointer are aliases, not hand-overs: a sink through any of them counts
             for _r in range(2):
@@ -953,6 +961,13 @@ def ownlocal(run, fx, reach_q):
                     l = fn.strip(u['c'][0])
                     if not (l['k'] == 'DeclRefExpr' and l.get('vid') in vids) or (l.get('dt') or '').rstrip().endswith('&'):
                         uses = True          # a store through a reference local reaches the object it is bound to
+                        r_ = fn.strip_all_casts(u['c'][1])
+                        if r_['k'] in CALL_KINDS and not isv(u['c'][1]) and not any(isv(a_) for a_ in ((r_.get('args') if 'args' in r_ else r_.get('c')) or []) if a_ is not None):
+                            # `cell = f(.. *p ..)`: the pointer can only come back as the call's result (f returns the address of the object
+                            # it was given, or null): on the edges where that result is null nothing was stored -- the object is still owned
+                            lt = fn.render(l)
+                            for (b_, i_) in dom.edges_with(fn, lambda f, lt=lt: (f[0] == lt or f[0].startswith('(' + lt + ' = ')) and f[1] == '==' and f[2] == '0'):
+                                void_edges.add((b_, i_))
                 elif k == 'Init' and u.get('init') is not None and any(isv(x) for x in fn.walk(u['init'])):
                     uses = True
                 elif k == 'CXXNewExpr' and u.get('place') and any(p is not None and any(isv(x) for x in fn.walk(p)) for p in u['place']):
@@ -968,7 +983,7 @@ def ownlocal(run, fx, reach_q):
                 if fn.block_of[u['i']] == ab and fn.pos_of[u['i']] > fn.pos_of[e['i']] and u['i'] in sink_elems:
                     same = True
             exempt = _alloc_failure_blocks(fn)
-            ok = same or _all_paths_pass(fn, ab, sinks - {ab}, set(bypass) | fn.__dict__.get('_alloc_fail_edges', set()), exempt)
+            ok = (same and not void_edges) or _all_paths_pass(fn, ab, (sinks - {ab}) if not void_edges else sinks, set(bypass) | fn.__dict__.get('_alloc_fail_edges', set()), exempt, void_edges, first=ab if void_edges else None)
             if not ok and (fn.q, dd['n']) in OWNLOCAL_EXCEPTIONS:
                 run.held('OWNLOCAL', inst, fn.loc(e), 'tabled exception: %s' % OWNLOCAL_EXCEPTIONS[(fn.q, dd['n'])], False)
                 continue
